@@ -340,6 +340,7 @@ func C17(r *h.Run) {
 	files = append(files, gFile{Package: "acme.v1", GoPackage: "example.com/gen/p;p"}) // no services
 
 	compiled := 0
+	single := map[int]string{} // file index -> generated content when generated alone
 	for fi, f := range files {
 		fd := f.descriptor(fmt.Sprintf("t%d/svc.proto", fi))
 		req := &pluginpb.CodeGeneratorRequest{FileToGenerate: []string{fd.GetName()}, ProtoFile: []*descriptorpb.FileDescriptorProto{fd}}
@@ -365,6 +366,7 @@ func C17(r *h.Run) {
 			continue
 		}
 		src := res.File[0].GetContent()
+		single[fi] = src
 		for _, s := range f.Services {
 			goName := goCamel(s.Name)
 			rows, mount, perr := extractSkeleton(src, goName)
@@ -445,6 +447,53 @@ func C17(r *h.Run) {
 				r.Fail(h.Failure{Key: "codegen/vet", Family: "compile", What: "go vet rejects the generated code", Input: in, Actual: out})
 			}
 			_ = os.RemoveAll(dir)
+		}
+	}
+	// ---- several files in one request (what `protoc a.proto b.proto` and buf send): files
+	// without services next to files with services, in every order ----
+	noSvc := len(files) - 1
+	var withSvc []int
+	for fi := range files {
+		if _, ok := single[fi]; ok {
+			withSvc = append(withSvc, fi)
+		}
+	}
+	if len(withSvc) >= 2 {
+		a, b := withSvc[0], withSvc[len(withSvc)-1]
+		for oi, order := range [][]int{{noSvc, a}, {a, noSvc}, {noSvc, a, b}, {a, noSvc, b}, {a, b, noSvc}, {a, b}} {
+			req := &pluginpb.CodeGeneratorRequest{}
+			for _, fi := range order {
+				fd := files[fi].descriptor(fmt.Sprintf("t%d/svc.proto", fi))
+				req.ProtoFile = append(req.ProtoFile, fd)
+				req.FileToGenerate = append(req.FileToGenerate, fd.GetName())
+			}
+			in := map[string]any{"files_in_request_order": order, "file_without_services": noSvc}
+			r.Eval("generate_multi", fmt.Sprint(order))
+			res, err := runPlugin(plugin, req)
+			if err != nil || res.Error != nil {
+				r.Fail(h.Failure{Key: "codegen/generator-fails", Family: "generate_multi", What: "the generator failed on a valid multi-file request", Input: in, Actual: fmt.Sprint(err, " ", res.GetError())})
+				continue
+			}
+			want := 0
+			for _, fi := range order {
+				if fi == noSvc {
+					continue
+				}
+				want++
+				found := false
+				for _, out := range res.File {
+					if out.GetContent() == single[fi] {
+						found = true
+					}
+				}
+				if !found {
+					r.Fail(h.Failure{Key: "codegen/multi-file-output", Family: "generate_multi", What: fmt.Sprintf("file %d has services but the request produced no output identical to what it yields when generated alone", fi), Input: in, Actual: len(res.File)})
+				}
+			}
+			if len(res.File) != want {
+				r.Fail(h.Failure{Key: "codegen/file-count", Family: "generate_multi", What: "one output per file with services expected", Input: in, Expected: want, Actual: len(res.File)})
+			}
+			_ = oi
 		}
 	}
 	r.Note("compiled %d generated packages with go build + go vet", compiled)
